@@ -257,7 +257,7 @@ func main() {
 	r := &runner{c: c, w: &worker{}, perClass: map[string]int{}, fails: map[string][]vlib.Failure{}}
 	defer r.w.stop()
 	defer r.flush()
-	c.Res.Rule = "enc: every sequence of length 1..3 (quick) / 1..4 (thorough) over a 12-symbol alphabet {bitswap, gateway, graphsync-filecoin x 4 piece CIDs/flag settings, 6 unknown codes below/between/above the known IDs}, sampled sequences of length 4..6 with random payloads 0..300 B, unknown payload length sweep 0..300; non-trivial = at least 2 protocols one of which has a variable-length encoding. dec: valid encodings, all truncations, bit flips, byte edits, unsorted pairs, hostile/malformed length prefixes, non-canonical DAG-CBOR, random bytes <= 1 KiB; non-trivial = accepted with >= 2 protocols, or rejected input of >= 3 bytes"
+	c.Res.Rule = "enc: EXHAUSTIVE over every sequence of length 1..3 (quick) / 1..4 (thorough) of a 12-symbol alphabet {bitswap, gateway, graphsync-filecoin x 4 piece CIDs/flag settings, 6 unknown codes below/between/above the known IDs with payloads 0..128}; SAMPLED: sequences of length 4..6 with random payloads 0..300 B and 9 piece CIDs, unknown payload length sweep 0..300 and 1000..1024, metadata.HTTPV1() combinations, 13..40 protocols with distinct IDs; non-trivial = at least 2 protocols one of which has a variable-length encoding. dec: valid encodings, all their truncations, bit flips, byte edits, all ordered pairs and random trains concatenated as given, hostile/boundary/malformed length prefixes, hand-written non-canonical DAG-CBOR, random bytes <= 1 KiB; non-trivial = accepted with >= 2 protocols, or rejected input of >= 3 bytes. lim: largest graphsync link the DAG-CBOR budget admits"
 	c.Res.Exhaustive = false
 	c.Note(fmt.Sprintf("metadata.MaxMetadataSize = %d", metadata.MaxMetadataSize))
 
